@@ -365,6 +365,9 @@ func init() {
 			add(1, &faults.Fault{Who: "runtime", Point: "after-next", Action: "exit1", At: 1}, 1, false)
 			add(1, &faults.Fault{Who: "ext0", Point: "after-register", Action: "exit1", At: 1}, 1, false)
 			add(0, &faults.Fault{Who: "runtime", Point: "after-next", Action: "stall", At: 2}, 1, false)
+			add(0, &faults.Fault{Who: "runtime", Point: "before-next", Action: "sig9", At: 1}, 1, false)
+			add(1, &faults.Fault{Who: "runtime", Point: "before-next", Action: "exit1", At: 1}, 1, false)
+			add(1, &faults.Fault{Who: "runtime", Point: "idle", Action: "exit1", At: 1}, 1, false)
 		}
 		var out []hx.Scenario
 		for _, s := range ss {
